@@ -46,7 +46,7 @@ Record Q (U : op -> Prop) (A B : N) (w : world) : Prop := {
 Definition q_step (w : world) (s : step_t) : Prop :=
   match s with
   | SDeliver m n => forall sender ops, w_msgs w !! m = Some (sender, ops) -> sender <> n
-  | SInject _ _ _ | SRestart _ | SRecBegin _ _ | SRecEnd _ _ | SRecover _ _ | SFaulty _ _ => False
+  | SInject _ _ _ | SRestart _ | SRecBegin _ _ | SRecEnd _ _ | SRecover _ _ | SFaulty _ _ | SWriteCF _ _ _ _ => False
   | _ => True
   end.
 
@@ -346,7 +346,7 @@ Theorem Q_step T U A B w s :
   Q (grow U (new_op w s)) A B (step true T w s).1.
 Proof.
   intros I QQ Hok Hq.
-  destruct s as [n k v lease|n k|n sender b|n|m n|i j late|f| |n|n p|n p|n p|n s filter|fn g|n s]; simpl in *; try destruct Hq.
+  destruct s as [n k v lease|n k|n sender b|n|m n|i j late|f| |n|n p|n p|n p|n s filter|fn g|n k lease del|n s]; simpl in *; try destruct Hq.
   - apply Q_write; assumption.
   - apply Q_write; assumption.
   - destruct (w_nodes w !! n); simpl; apply Q_grow_None; [eapply Q_ext; [| |exact QQ]; reflexivity|exact QQ].
@@ -496,7 +496,7 @@ Qed.
 Definition q_stepb (w : world) (s : step_t) : bool :=
   match s with
   | SDeliver m n => match w_msgs w !! m with Some (sender, _) => negb (sender =? n) | None => true end
-  | SInject _ _ _ | SRestart _ | SRecBegin _ _ | SRecEnd _ _ | SRecover _ _ | SFaulty _ _ => false
+  | SInject _ _ _ | SRestart _ | SRecBegin _ _ | SRecEnd _ _ | SRecover _ _ | SFaulty _ _ | SWriteCF _ _ _ _ => false
   | _ => true
   end.
 Fixpoint q_runb (T : N) (w : world) (l : list step_t) : bool :=
